@@ -31,9 +31,10 @@ check("C02",
       "blueprint table extracted from the LIVE registry, against the NumPy reference for every input, chunking, combine kind, reindex mode and "
       "split_every in small scope (a counterexample is confirmed on real flox before it counts; a mutated table must be rejected); every Return of "
       "real chunked calls over values x labels x ALL chunkings x method x reindex x numpy|dask labels is validated by TraceReduce.tla; and real "
-      "graphs are executed task by task by the harness scheduler with every flox task validated against Aggs!Sem by TraceGraph.tla.",
+      "graphs are executed task by task by the harness scheduler with every flox task validated against Aggs!Sem by TraceGraph.tla."
+      " The composed specification Flox.tla (Factorize -> Cohorts/Plan -> Rechunk -> strategy -> Finish over the live blueprint table) is model-checked exhaustively at small bounds and its TLC-simulated behaviours are replayed into the real groupby_reduce (spec -> code): every specified slot of every finished behaviour must equal the specification's value.",
       TB + " Kernels (numpy_groupies, numbagg, ufunc.reduceat) are primitives whose assumed semantics are checked on every replayed task.",
-      "TLA+ pipeline model on the live registry (TLC) + trace validation of API returns and of every task of real dask graphs", "DESIGN.md section 5 C02")
+      "TLA+ pipeline model on the live registry (TLC) + trace validation of API returns and of every task of real dask graphs + replay of TLC-generated behaviours of the composed spec Flox.tla", "DESIGN.md section 5 C02")
 
 check("C03",
       "Three TLC layers: MC_Laws!Bracket (combine insensitive to bracketing, on the live registry), MC_Tree (both tree builders well formed for all "
@@ -64,12 +65,14 @@ check("C05",
       "MC_Factorize (requested labels -> codes: slots are the sort contract, -1 iff missing/unrequested) and MC_Pipeline on the live registry's "
       "min_count rows (absent slot and under-populated group receive the user's fill) are model-checked; Returns of real calls over labels x "
       "expected_groups (sub/super/disjoint, sorted/unsorted) x sort x fill x min_count x 23 reductions x engines x eager|strategy|chunking are validated "
-      "by TraceReduce.tla. Two classes of genuine defects are listed as known findings (explicit min_count=0).",
-      TB, "TLC factorisation + pipeline models, trace validation of API returns", "DESIGN.md section 5 C05")
+      "by TraceReduce.tla. Two classes of genuine defects are listed as known findings (explicit min_count=0)."
+      " The composed specification Flox.tla (Factorize -> Cohorts/Plan -> Rechunk -> strategy -> Finish over the live blueprint table) is model-checked exhaustively at small bounds and its TLC-simulated behaviours are replayed into the real groupby_reduce (spec -> code): behaviours with requested labels (given unsorted) must return exactly the labels Factorize.tla says.",
+      TB, "TLC factorisation + pipeline models, trace validation of API returns, replay of Flox.tla behaviours", "DESIGN.md section 5 C05")
 check("C16",
       "MC_Factorize!GroupsAreContract/CodesPointAtSlots and MC_Pipeline!InvLabels at design level; Returns for int/str/float+NaN labels x sort x "
-      "expected_groups x every strategy/chunking x numpy|dask labels validated by TraceReduce.tla (clauses groups / order / values).",
-      TB, "TLC factorisation model + trace validation of API returns (order and label->value pairing)", "DESIGN.md section 5 C16")
+      "expected_groups x every strategy/chunking x numpy|dask labels validated by TraceReduce.tla (clauses groups / order / values)."
+      " The composed specification Flox.tla (Factorize -> Cohorts/Plan -> Rechunk -> strategy -> Finish over the live blueprint table) is model-checked exhaustively at small bounds and its TLC-simulated behaviours are replayed into the real groupby_reduce (spec -> code): behaviours without requested labels must return the labels in the order Factorize.tla says (any order only for groups discovered at compute time with sort=False).",
+      TB, "TLC factorisation model + trace validation of API returns (order and label->value pairing) + replay of Flox.tla behaviours", "DESIGN.md section 5 C16")
 
 check("C18",
       "MC_Quantile: the transcribed index arithmetic of quantile_ (valid counts, cumulative offsets, q(n-1), floor/ceil, lerp, NaN masks) equals "
@@ -85,8 +88,10 @@ check("C20",
 check("C07",
       "MC_Factorize (BinsLikeCut on edges/interior/outside/NaN/+-inf for both closed sides, RavelOk: tuple code row-major, injective, -1 absorbing) at "
       "design level; real calls with 1-3 groupers of any mix of categorical/binned kinds, equal shapes or size-1 broadcasting, eager and chunked, numpy "
-      "and dask labels are validated by TraceMulti.tla, which recomputes every element's tuple slot from Ref!RefCut and the requested labels.",
-      TB + " RefCut is cross-checked against real pandas.cut by the selftest.", "TLC factorisation model + trace validation (tuple-key semantics, pandas.cut)", "DESIGN.md section 5 C07")
+      "and dask labels (also one chunked and one in-memory grouper without expected_groups) are validated by TraceMulti.tla, which recomputes every element's "
+      "tuple slot from Ref!RefCut and the requested labels. Behaviours of the composed specification Flox.tla with TWO groupers (Factorize!RavelFactorized, the "
+      "label grid, every strategy / reindex setting) are TLC-simulated and replayed into the real groupby_reduce.",
+      TB + " RefCut is cross-checked against real pandas.cut by the selftest.", "TLC factorisation model + trace validation (tuple-key semantics, pandas.cut) + replay of two-grouper Flox.tla behaviours", "DESIGN.md section 5 C07")
 check("C08",
       "MC_Factorize!OffsetsOk (per-slice offsets injective, -1 preserved) at design level; real calls on 1-4-D arrays with 1-3-D labels and every "
       "non-empty subset of label dims as axis (any order/sign), eager and chunked along any axes: shape checked, then EVERY kept-index slice validated as "
@@ -121,8 +126,11 @@ check("C19",
       "(201 600 consistent cells): Total, AutoWorksWhereMapReduceDoes, AutoPlanPreconditions (a TLC counterexample, confirmed on the code, led to one of the "
       "fix: commits). Cells are executed on real flox on ordinary and degenerate inputs under all four methods and the outcome vectors validated by TracePlan.tla "
       "against the property relation (clean refusal classes; map-reduce ok => auto ok and equal; explicit plans equal or refused); model-vs-code differences are "
-      "DRIFT only; accepted 1-D results are validated against Ref.",
-      TB + " sparse/cubed are not installed.", "TLC on the decision model (full configuration product) + trace validation of executed cells", "DESIGN.md section 5 C19")
+      "DRIFT only; accepted 1-D results are validated against Ref. Every groupby_reduce call made by (part of) the repository's OWN test-suite is recorded "
+      "by the FLOX_VERIF hook (configuration scalars, outcome, resolved strategy / engine / reindex mode) and validated against Plan.tla by TraceCalls.tla "
+      "(unlogged planner inputs and label sortedness are left to TLC as existentials); behaviours of the composed specification Flox.tla are replayed into the "
+      "real code and must never escape with an internal error.",
+      TB + " sparse/cubed are not installed.", "TLC on the decision model (full configuration product) + trace validation of executed cells and of the calls recorded from the repository's own tests + replay of Flox.tla behaviours", "DESIGN.md section 5 C19")
 
 check("C12",
       "Lifecycle.tla (idle -> constructing -> returned -> computing) with NoEagerEvaluation / ReturnsLazy / NoPeekingAtChunkedLabels model-checked; every "
